@@ -139,4 +139,4 @@ def run(chk):
 
 
 def safety_net(chk):
-    return ptreplay.battery_scalarmult(chk.seed, maxn=3)
+    return ptreplay.battery_scalarmult(chk.seed, maxn=3) or ptreplay.battery_history_variants(chk.seed)
